@@ -39,11 +39,12 @@ Log(op, a, b) == hist' = Append(hist, [op |-> op, a |-> a, b |-> b])
 Res(op, ok) == last' = [op |-> op, ok |-> ok, done |-> TRUE]
 SvcSame == UNCHANGED <<conn, sAgent, sLst, sExc2>>
 
-Add(n, k) ==    \* built-in kinds; "busy" = an HTTP listener whose port is taken: it is kept, offline
-    /\ k \in Builtin \cup {"busy"}
+Add(n, k) ==    \* built-in kinds; "busy" = an HTTP listener whose port is taken: it is kept, offline;
+                \* "extsame" = an External listener on the endpoint the other name's External listener has: kept like any other (not part of Next)
+    /\ k \in Builtin \cup {"busy", "extsame"}
     /\ IF run[n] # None
        THEN UNCHANGED <<run, db, adv, port>> /\ Res("Add", FALSE)
-       ELSE /\ run' = [run EXCEPT ![n] = IF k = "busy" THEN "http" ELSE k]
+       ELSE /\ run' = [run EXCEPT ![n] = IF k = "busy" THEN "http" ELSE IF k = "extsame" THEN "ext" ELSE k]
             /\ db' = db \cup {n} /\ adv' = adv \cup {n}
             /\ port' = IF k = "http" THEN port \cup {n} ELSE port
             /\ Res("Add", TRUE)
